@@ -101,6 +101,7 @@ type Cluster struct {
 	acceptCl  map[int]bool // nodes that close every connection right after accepting it
 	recvBuf   int          // SO_RCVBUF for connections accepted from now on (0 = system default)
 	pauseTill time.Time    // readers do not read before this moment (a node too busy to read)
+	roGap     time.Duration          // the +OK of READONLY is sent this long after it arrived (handshake acknowledgements in separate segments)
 	probeGate func() <-chan struct{} // when set, every CLUSTER NODES reply (rendered at arrival) waits for the returned gate
 }
 
@@ -217,6 +218,9 @@ func (c *Cluster) pauseLeft() time.Duration {
 	defer c.mu.Unlock()
 	return time.Until(c.pauseTill)
 }
+
+// SetHandshakeGap delays the acknowledgement of READONLY, so that AUTH's and READONLY's +OK reach the proxy apart.
+func (c *Cluster) SetHandshakeGap(d time.Duration) { c.mu.Lock(); c.roGap = d; c.mu.Unlock() }
 
 // SetProbeGate makes every reply to CLUSTER NODES wait for a gate obtained from f at the moment the probe
 // arrives (the reply text is rendered at that moment too); nil switches it off.
@@ -610,7 +614,10 @@ func (nc *nodeConn) dispatch(raw []byte, args [][]byte) {
 	case "readonly":
 		nc.event(name)
 		nc.ro = true
-		nc.send(nil, Action{Reply: []byte("+OK\r\n")})
+		c.mu.Lock()
+		gap := c.roGap
+		c.mu.Unlock()
+		nc.send(nil, Action{Reply: []byte("+OK\r\n"), Delay: gap})
 		return
 	case "readwrite":
 		nc.event(name)
